@@ -81,62 +81,88 @@ def isPrimitive (c : UInt8) : Bool :=
 
 def typeWord : Bytes := bs "Type"
 
+/-- the `'\r'` case of nextToken (`t` = rest after the `\r`). -/
+def lexCR (t : Bytes) : LexStep :=
+  match t with
+  | c1 :: _ => if c1.toNat == 10 then .tok T.newLine 1 true else .err none 0
+  | [] => .err none 0
+
+/-- `lexFunctionModifier` (`t` = rest after the `@`). -/
+def lexAt (t : Bytes) : LexStep :=
+  let w := nameIdentLen t
+  match t with
+  | c1 :: _ => if w == 0 || !lowerCase c1 then .err none w else .tok T.annotation w false
+  | [] => .err none w
+
+/-- the `'/'` case of nextToken (`s` = rest including the `/`). -/
+def lexSlash (s : Bytes) : LexStep :=
+  if (bs "//").isPrefixOf s then
+    let index := spanLen (fun x => x.toNat != 13 && x.toNat != 10) s
+    match utf8Bad (s.take index) 0 with
+    | some i => .err (some i) 0
+    | none => .tok T.comment (index - 1) false
+  else if (bs "/*").isPrefixOf s then .err none 1
+  else .err none 0
+
+/-- `lexSection` (`s` = rest including the `-`). -/
+def lexSection (s : Bytes) : LexStep :=
+  if (bs Facts.Syntaxtl2.typesSectionString).isPrefixOf s then
+    .tok T.typesSection ((bs Facts.Syntaxtl2.typesSectionString).length - 1) false
+  else if (bs Facts.Syntaxtl2.functionsSectionString).isPrefixOf s then
+    .tok T.functionsSection ((bs Facts.Syntaxtl2.functionsSectionString).length - 1) false
+  else .tok 45 0 false
+
+/-- `lexNumberSign` (`t` = rest after the `#`). -/
+def lexNumberSign (t : Bytes) : LexStep :=
+  let k := spanLen identChar t
+  if k == 0 then .tok T.numberSign 0 false
+  else if !(t.take k).all hexc || k != 8 then .err none k
+  else .tok T.crc32hash k false
+
+/-- the `'_'` case of nextToken in TL2 mode (`t` = rest after the `_`). -/
+def lexUnderscore (t : Bytes) : LexStep :=
+  let w := nameIdentLen t
+  if w == 0 then .tok T.underscore 0 false else .tok T.tl2depName w false
+
+/-- `lexNumber` (`s` = rest including the first digit). -/
+def lexNumber (s : Bytes) : LexStep :=
+  let k := spanLen identChar s
+  if (s.take k).all digit then .tok T.number (k - 1) false else .err none (k - 1)
+
+/-- the `letter` case of nextToken in TL2 mode with `lexLexeme` (`s = c :: _`). -/
+def lexLetter (c : UInt8) (s : Bytes) : LexStep :=
+  let w := nameIdentLen s
+  if s.take w == typeWord then .tok T.tl2typeSign 3 false
+  else -- lexLexeme
+    match s.drop w with
+    | d :: r =>
+      let w2 := nameIdentLen r
+      if d.toNat == 46 && w2 != 0 then
+        if !lowerCase c then .err none (w + w2)
+        else match r with
+          | c2 :: _ => if lowerCase c2 then .tok T.lcIdentNS (w + w2) false else .tok T.ucIdentNS (w + w2) false
+          | [] => .err none 0
+      else if lowerCase c then .tok T.lcIdent (w - 1) false else .tok T.ucIdent (w - 1) false
+    | [] => if lowerCase c then .tok T.lcIdent (w - 1) false else .tok T.ucIdent (w - 1) false
+
 /-- `lexer.nextToken` on the non-empty rest `c :: t` (TL2 mode). -/
 def nextStep (c : UInt8) (t : Bytes) : LexStep :=
   let s := c :: t
   let n := c.toNat
   if isPrimitive c then .tok (n : Int) 0 false
-  else if n == 13 then
-    match t with
-    | c1 :: _ => if c1.toNat == 10 then .tok T.newLine 1 true else .err none 0
-    | [] => .err none 0
+  else if n == 13 then lexCR t
   else if n == 10 then .tok T.newLine 0 true
   else if n == 61 then -- '='
     if (bs "=>").isPrefixOf s then .tok T.functionSign 1 false else .tok T.equalSign 0 false
   else if n == 60 then -- '<'
     if (bs "<=>").isPrefixOf s then .tok T.tl2alias 2 false else .tok T.lAngle 0 false
-  else if n == 64 then -- '@' lexFunctionModifier
-    let w := nameIdentLen t
-    match t with
-    | c1 :: _ => if w == 0 || !lowerCase c1 then .err none w else .tok T.annotation w false
-    | [] => .err none w
-  else if n == 47 then -- '/'
-    if (bs "//").isPrefixOf s then
-      let index := spanLen (fun x => x.toNat != 13 && x.toNat != 10) s
-      match utf8Bad (s.take index) 0 with
-      | some i => .err (some i) 0
-      | none => .tok T.comment (index - 1) false
-    else if (bs "/*").isPrefixOf s then .err none 1
-    else .err none 0
-  else if n == 45 then -- '-' lexSection
-    if (bs Facts.Syntaxtl2.typesSectionString).isPrefixOf s then .tok T.typesSection ((bs Facts.Syntaxtl2.typesSectionString).length - 1) false
-    else if (bs Facts.Syntaxtl2.functionsSectionString).isPrefixOf s then .tok T.functionsSection ((bs Facts.Syntaxtl2.functionsSectionString).length - 1) false
-    else .tok 45 0 false
-  else if n == 35 then -- '#' lexNumberSign
-    let k := spanLen identChar t
-    if k == 0 then .tok T.numberSign 0 false
-    else if !(t.take k).all hexc || k != 8 then .err none k
-    else .tok T.crc32hash k false
-  else if n == 95 then -- '_'
-    let w := nameIdentLen t
-    if w == 0 then .tok T.underscore 0 false else .tok T.tl2depName w false
-  else if digit c then -- lexNumber
-    let k := spanLen identChar s
-    if (s.take k).all digit then .tok T.number (k - 1) false else .err none (k - 1)
-  else if letter c then
-    let w := nameIdentLen s
-    if s.take w == typeWord then .tok T.tl2typeSign 3 false
-    else -- lexLexeme
-      match s.drop w with
-      | d :: r =>
-        let w2 := nameIdentLen r
-        if d.toNat == 46 && w2 != 0 then
-          if !lowerCase c then .err none (w + w2)
-          else match r with
-            | c2 :: _ => if lowerCase c2 then .tok T.lcIdentNS (w + w2) false else .tok T.ucIdentNS (w + w2) false
-            | [] => .err none 0
-        else if lowerCase c then .tok T.lcIdent (w - 1) false else .tok T.ucIdent (w - 1) false
-      | [] => if lowerCase c then .tok T.lcIdent (w - 1) false else .tok T.ucIdent (w - 1) false
+  else if n == 64 then lexAt t
+  else if n == 47 then lexSlash s
+  else if n == 45 then lexSection s
+  else if n == 35 then lexNumberSign t
+  else if n == 95 then lexUnderscore t
+  else if digit c then lexNumber s
+  else if letter c then lexLetter c s
   else .err none 0
 
 structure LexOut where
@@ -148,34 +174,37 @@ deriving Repr
 def advPos (pos : Pos) (len : Nat) : Pos := { pos with col := pos.col + len, off := pos.off + len }
 def nlPos (pos : Pos) : Pos := { line := pos.line + 1, col := 1, slo := pos.off, off := pos.off }
 
+/-- one iteration of the `generateTokens` loop on the non-empty rest `c :: t`; `loop` is the rest of the loop. -/
+def lexCons (loop : Bytes → Pos → Res LexOut) (c : UInt8) (t : Bytes) (pos : Pos) : Res LexOut :=
+  match nextStep c t with
+  | .tok ty extra nl =>
+    if extra ≤ t.length then
+      let tok : Token := { ty := ty, val := (c :: t).take (extra + 1), pos := pos }
+      let pos1 := advPos pos (extra + 1)
+      match loop (t.drop extra) (if nl then nlPos pos1 else pos1) with
+      | .ok o => .ok { o with toks := tok :: o.toks }
+      | r => r
+    else .panic
+  | .err none extra =>
+    if extra ≤ t.length then
+      let tok : Token := { ty := T.undefined, val := (c :: t).take (extra + 1), pos := pos }
+      .ok { toks := [tok], err := some (errTok tok tok.pos), rest := t.drop extra }
+    else .panic
+  | .err (some pre) extra =>
+    if pre + extra + 1 ≤ (c :: t).length then
+      let tok0 : Token := { ty := T.comment, val := (c :: t).take pre, pos := pos }
+      let s1 := (c :: t).drop pre
+      let pos1 := advPos pos pre
+      let tok : Token := { ty := T.undefined, val := s1.take (extra + 1), pos := pos1 }
+      .ok { toks := [tok0, tok], err := some (errTok tok tok.pos), rest := s1.drop (extra + 1) }
+    else .panic
+
 /-- `generateTokens` loop (before `validateTokens`); `fuel` bounds the number of iterations (`.nofuel` is proved
 unreachable for `fuel > len(s)`: every `nextToken` call consumes at least one byte). -/
 def lexLoop : Nat → Bytes → Pos → Res LexOut
   | 0, _, _ => .nofuel
   | _ + 1, [], pos => .ok { toks := [{ ty := T.eof, val := [], pos := pos }], err := none, rest := [] }
-  | f + 1, c :: t, pos =>
-    match nextStep c t with
-    | .tok ty extra nl =>
-      if extra ≤ t.length then
-        let tok : Token := { ty := ty, val := (c :: t).take (extra + 1), pos := pos }
-        let pos1 := advPos pos (extra + 1)
-        match lexLoop f (t.drop extra) (if nl then nlPos pos1 else pos1) with
-        | .ok o => .ok { o with toks := tok :: o.toks }
-        | r => r
-      else .panic
-    | .err none extra =>
-      if extra ≤ t.length then
-        let tok : Token := { ty := T.undefined, val := (c :: t).take (extra + 1), pos := pos }
-        .ok { toks := [tok], err := some (errTok tok tok.pos), rest := t.drop extra }
-      else .panic
-    | .err (some pre) extra =>
-      if pre + extra + 1 ≤ (c :: t).length then
-        let tok0 : Token := { ty := T.comment, val := (c :: t).take pre, pos := pos }
-        let s1 := (c :: t).drop pre
-        let pos1 := advPos pos pre
-        let tok : Token := { ty := T.undefined, val := s1.take (extra + 1), pos := pos1 }
-        .ok { toks := [tok0, tok], err := some (errTok tok tok.pos), rest := s1.drop (extra + 1) }
-      else .panic
+  | f + 1, c :: t, pos => lexCons (lexLoop f) c t pos
 
 def illegalTL2 (ty : Int) : Bool :=
   ty == T.lCurly || ty == T.rCurly || ty == T.exclamation || ty == T.lRound || ty == T.rRound ||
